@@ -436,3 +436,70 @@ Definition mirrors (s t : istate) : Prop :=
   i_local_cid t = i_remote_cid s /\ i_remote_cid t = i_local_cid s /\
   (exists ids idt, i_suite s = Some ids /\ i_suite t = Some idt /\
                    suite_class ids = suite_class idt /\ suite_hash ids = suite_hash idt).
+
+(* ---------- ConnectionState() called more than once on one connection ----------
+   conn.go ConnectionState takes the read lock and runs generateState on the state AS IT IS NOW,
+   every time: the State it hands out is a function of the current connection state, whatever
+   earlier calls returned.  A Conn is modelled as its internal state plus a slot in which a
+   memoising variant would keep the first snapshot ([c_memo]; the code of /repo has no such slot:
+   [export] never reads or writes it).  Histories: a send at an epoch (Write, alert, RRC,
+   retransmission: conn.go nextLocalSequenceNumber) or a look (a ConnectionState() call whose
+   result the application only inspects). *)
+Record conn := mkConn { c_state : istate; c_memo : option pstate }.
+Inductive ev := EvSend (e : N) | EvLook.
+
+Definition conn_fresh (s : istate) : conn := mkConn s None.
+
+Definition set_local_seq (s : istate) (l : list N) : istate :=
+  {| i_version := i_version s; i_local_epoch := i_local_epoch s; i_remote_epoch := i_remote_epoch s;
+     i_local_random := i_local_random s; i_remote_random := i_remote_random s; i_master := i_master s;
+     i_local_seq := l; i_remote_seq := i_remote_seq s; i_replay := i_replay s; i_suite := i_suite s;
+     i_profile := i_profile s; i_mki := i_mki s; i_local_cid := i_local_cid s; i_remote_cid := i_remote_cid s;
+     i_rrc := i_rrc s; i_is_client := i_is_client s; i_certs := i_certs s; i_hint := i_hint s;
+     i_session_id := i_session_id s; i_alpn := i_alpn s; i_ems := i_ems s; i_cid_offered := i_cid_offered s;
+     i_certs_verified := i_certs_verified s; i_hs_seq := i_hs_seq s |}.
+
+(* Conn.ConnectionState.  [memo = false]: the code of /repo.  [memo = true]: a variant that keeps
+   the first State it produced and hands that copy out from then on ("what the handshake
+   negotiated does not change" - but the next record sequence number does). *)
+Definition export_gen (memo : bool) (c : conn) : conn * outcome pstate :=
+  match (if memo then c_memo c else None) with
+  | Some p => (c, Ok p)
+  | None =>
+      match gen_state (c_state c) with
+      | Ok p => (mkConn (c_state c) (if memo then Some p else c_memo c), Ok p)
+      | Refused => (c, Refused)
+      | Panics => (c, Panics)
+      end
+  end.
+Definition export : conn -> conn * outcome pstate := export_gen false.
+
+Definition conn_step (memo : bool) (c : conn) (x : ev) : conn :=
+  match x with
+  | EvSend e => mkConn (set_local_seq (c_state c) (fst (alloc (i_local_seq (c_state c)) e))) (c_memo c)
+  | EvLook => fst (export_gen memo c)
+  end.
+
+Fixpoint conn_run (memo : bool) (c : conn) (evs : list ev) : conn :=
+  match evs with
+  | [] => c
+  | x :: r => conn_run memo (conn_step memo c x) r
+  end.
+
+(* the epochs of the sends of a history, in order *)
+Fixpoint sends_of (evs : list ev) : list N :=
+  match evs with
+  | [] => []
+  | EvSend e :: r => e :: sends_of r
+  | EvLook :: r => sends_of r
+  end.
+
+(* the sequence number each look of a history returned (None: no State was returned) *)
+Fixpoint looks_seqs (memo : bool) (c : conn) (evs : list ev) : list (option N) :=
+  match evs with
+  | [] => []
+  | EvLook :: r =>
+      let '(c', o) := export_gen memo c in
+      (match o with Ok p => Some (p_seq p) | _ => None end) :: looks_seqs memo c' r
+  | x :: r => looks_seqs memo (conn_step memo c x) r
+  end.
